@@ -21,7 +21,7 @@ def _returns(f):
     return [n for n in own_nodes(f) if isinstance(n, ast.Return)]
 
 
-def rule_helpers(rep: Report, repo: Repo, sections=None):
+def rule_helpers(rep: Report, repo: Repo, sections=None, nonhermitian: bool = True):
     R = "E11"
     loc = lambda n: repo.loc(MOD, n)
 
@@ -129,6 +129,52 @@ def rule_helpers(rep: Report, repo: Repo, sections=None):
         if len(ev) != 1:
             raise AnalysisError(R, "_unpack_blocks.op_eval not found")
         rr = [n for n in ast.walk(ev[0]) if isinstance(n, ast.Return) and n.value is not None and norm(n.value) != "zero"]
+        # a Hermitian fill (lower block = adjoint of the upper one) is legitimate only under a flag that every caller sets from
+        # its own `hermitian` argument
+        fills = [n for n in rr if isinstance(n.value, ast.Call) and call_name(n.value) in ("Dagger", "adjoint") and len(n.value.args) == 1
+                 and isinstance(n.value.args[0], ast.Subscript) and "index[1], index[0]" in norm(n.value.args[0].slice)]
+        if fills:
+            rr = [n for n in rr if n not in fills]
+            from .sem import bind_args, outcomes as _outcomes
+            from .paths import bool_atoms
+            params = [a.arg for a in f.args.args + f.args.kwonlyargs]
+            for o in _outcomes(ev[0].body, None, env={}, expand=False):
+                if o.kind != "return" or o.node not in fills:
+                    continue
+                true_atoms = [norm(a) for t, pol in o.conds if pol for a in (bool_atoms(t) if isinstance(t, ast.BoolOp) and isinstance(t.op, ast.And) else [t])]
+                lower = any(t in ("index[0] > index[1]", "index[1] < index[0]") for t in true_atoms)
+                flags = [t for t in true_atoms if t in params]
+                if not lower:
+                    raise AnalysisError(R, f"_unpack_blocks.op_eval: adjoint fill under `{true_atoms}`: not understood")
+                if not flags:
+                    rep.fail(R, f"{MOD}::_unpack_blocks.op_eval takes a lower block as the adjoint of the upper one without a Hermiticity flag",
+                             "for a non-Hermitian input given as nested block lists the lower blocks are independent data", loc(o.node))
+                    continue
+                F = flags[0]
+                sites = [c for t_ in repo.trees.values() for c in ast.walk(t_) if isinstance(c, ast.Call) and call_name(c) == "_unpack_blocks"]
+                defaults = dict(zip([a.arg for a in f.args.args][len(f.args.args) - len(f.args.defaults):], f.args.defaults))
+                defaults.update({a.arg: d for a, d in zip(f.args.kwonlyargs, f.args.kw_defaults) if d is not None})
+                for c in sites:
+                    b = bind_args(f, c)
+                    if b is None:
+                        raise AnalysisError(R, f"cannot bind `{norm(c)[:60]}`")
+                    host = c
+                    while host is not None and not isinstance(host, ast.FunctionDef):
+                        host = getattr(host, "_parent", None)
+                    host_params = [a.arg for a in host.args.args + host.args.kwonlyargs] if host is not None else []
+                    given = b.get(F, defaults.get(F))
+                    gtxt = norm(given) if given is not None else "<missing>"
+                    inst = f"{MOD}::{host.name if host else '?'} calls _unpack_blocks with {F} = {gtxt}" + ("" if F in b else " (the default)")
+                    if gtxt == "False" or (isinstance(given, ast.Name) and given.id in host_params and "hermitian" in given.id):
+                        rep.ok(R, inst, "the fill follows the caller's Hermiticity flag", loc(c))
+                    elif gtxt == "True" and any("hermitian" in p_ for p_ in host_params) and not nonhermitian:
+                        rep.ok(R, inst, "harmless for the Hermitian inputs this property is about (reported under C05 / C14)", loc(c))
+                    elif gtxt == "True" and any("hermitian" in p_ for p_ in host_params):
+                        rep.fail(R, inst + f" although {host.name} has its own Hermiticity argument",
+                                 "with hermitian=False the lower blocks of a nested-block-list Hamiltonian are replaced by the adjoints of the "
+                                 "upper ones: the result belongs to a different operator", loc(c))
+                    else:
+                        raise AnalysisError(R, f"{inst}: not understood")
         msc = Scope(repo.trees[MOD], None)
         texts = [norm(kwcalls(resolved(n.value, env_at(n, ev[0])), msc)) for n in rr]
         WANT = "_convert_if_zero(_convert_if_zero(operator[index[2:]], atol=atol)[index[0]][index[1]], atol=atol)"
@@ -319,7 +365,7 @@ def rule_helpers(rep: Report, repo: Repo, sections=None):
 
     if sections is None or "apply_mask" in sections:
         # -- second_quantization.apply_mask_to_operator + NumberOrderedForm.filter_terms: keep / discard are complementary ------
-        f = repo.find("second_quantization::apply_mask_to_operator", R)
+        f = repo.find_expanded("second_quantization::apply_mask_to_operator", R)  # extracted helpers are seen through
         # the element loop: the innermost loop that stores into the result matrix; (i, j) are read off the store target
         stores = [n for n in ast.walk(f) if isinstance(n, ast.Assign) and isinstance(n.targets[0], ast.Subscript)
                   and isinstance(n.targets[0].slice, ast.Tuple) and len(n.targets[0].slice.elts) == 2 and norm(n.targets[0].value) == "result"]
@@ -372,8 +418,20 @@ def rule_helpers(rep: Report, repo: Repo, sections=None):
         NOF = f"NumberOrderedForm.from_expr({VAL})._combine_operators(mask[{IJ}])"
         # (the combined mask is written back to mask[i, j] by the same unpacking, so `mask[i, j].terms` are the combined terms)
         filt = [(f"{NOF}[0].filter_terms(tuple(mask[{IJ}].terms), keep)",), (f"{NOF}[0].filter_terms(tuple(mask[{IJ}].terms), keep=keep)",)]
-        ok = table.get((True, "empty mask")) == [()] and table.get((False, "empty mask")) == [(VAL,)] and \
-            table.get((True, "mask")) in ([x] for x in filt) and table.get((False, "mask")) in ([x] for x in filt)
+        ok_empty = table.get((True, "empty mask")) == [()] and table.get((False, "empty mask")) == [(VAL,)]
+        ok_mask = table.get((True, "mask")) in ([x] for x in filt) and table.get((False, "mask")) in ([x] for x in filt)
+        if ok_empty and not ok_mask:
+            # understood and wrong: one filter_terms call whose keep argument is not the caller's `keep`; a call written differently
+            # (other receiver / terms expression) is not understood
+            import re as _re
+            for key_ in ((True, "mask"), (False, "mask")):
+                got_ = table.get(key_)
+                if not (got_ and len(got_) == 1 and len(got_[0]) == 1 and ".filter_terms(" in got_[0][0]):
+                    raise AnalysisError(R, f"apply_mask_to_operator: value stored for a non-empty mask entry `{str(got_)[:90]}` not understood")
+                m_ = _re.search(r"\.filter_terms\((.*), (keep=)?([^,()]+)\)$", got_[0][0])
+                if m_ is None or m_.group(3).strip() == "keep":
+                    raise AnalysisError(R, f"apply_mask_to_operator: filter call `{got_[0][0][:100]}` not understood")
+        ok = ok_empty and ok_mask
         rep.check(ok, R, "second_quantization::apply_mask_to_operator an empty mask entry selects nothing (keep) / everything (discard); otherwise filter_terms(mask terms, keep)",
                   str({k: [tuple(x[:90] for x in t) for t in v] for k, v in table.items()}), repo.loc("second_quantization", f))
         ft = repo.find("number_ordered_form::NumberOrderedForm::filter_terms", R)
